@@ -320,6 +320,13 @@ impl UntypedHandle {
     pub(crate) fn write(&self, asset: CacheEntry) {
         self.inner.write(asset);
     }
+
+    /// Returns `true` if the value behind this handle can be hot-reloaded.
+    #[cfg(feature = "hot-reloading")]
+    #[inline]
+    pub(crate) fn is_hot_reloaded(&self) -> bool {
+        self.inner.dynamic.is_some()
+    }
 }
 
 impl fmt::Debug for UntypedHandle {
